@@ -34,7 +34,7 @@ More == l <= Len(Ev)
 E == Ev[l]
 
 
-TraceInit == t \in 1..Len(Cases) /\ l = 1 /\ m = Boot(Cases[t].entry) /\ pc = 0
+TraceInit == t \in 1..Len(Cases) /\ l = 1 /\ m = BootF(Cases[t].funcs, Cases[t].entry) /\ pc = 0
 
 Fetch ==
     /\ More /\ E.e = "i" /\ m.st = "run" /\ pc = Len(m.pr)
